@@ -27,6 +27,9 @@ def sc_create(case, ctx):
         bins = gen.bins_frame(table, extra={"w": cells[0]["extra"]} if has_extra else None)
     else:
         bins = {c["name"]: gen.bins_frame(table, extra={"w": c["extra"]} if c["extra"] else None) for c in cells}
+    if case.get("labels") == "offset":                            # the bin table(s) with shifted row labels as well
+        for b in ([bins] if not isinstance(bins, dict) else bins.values()):
+            b.index = b.index + 100
     pixels = {}
     scale = case.get("scale", 1)
     kw = {}
@@ -36,6 +39,13 @@ def sc_create(case, ctx):
         fr = gen.pixels_frame(c["px"])
         if scale != 1:
             fr["count"] = fr["count"].astype(np.float64) / scale  # case values are in units of 1/scale
+        if case.get("labels") == "perm":                           # row labels: a permutation of 0..k-1
+            import random as _random
+            lab = list(range(len(fr)))
+            _random.Random(13 * len(fr) + 1).shuffle(lab)
+            fr.index = lab
+        elif case.get("labels") == "offset":
+            fr.index = fr.index + 100
         if case["form"] == "iter":
             h = len(fr) // 2
             pixels[c["name"]] = iter([fr.iloc[:h], fr.iloc[h:]])
